@@ -47,7 +47,7 @@ class QasmExporter(QCircuitExporter):
                 continue
 
             qbs = list(map(lambda gq: names[gq], ws))
-            if p:
+            if p is not None:
                 gate_qasm += f'\t{g.__name__.lower()}({p:.2f}) {" ".join(qbs)}\n'
             else:
                 gate_qasm += f'\t{g.__name__.lower()} {" ".join(qbs)}\n'
@@ -77,7 +77,7 @@ class QasmExporter(QCircuitExporter):
                 continue
 
             qbs = list(map(lambda gq: names[gq], ws))
-            if p:
+            if p is not None:
                 gate_qasm += f'\t{g.__name__.lower()}({p:.2f}) {" ".join(qbs)}\n'
             else:
                 gate_qasm += f'\t{g.__name__.lower()} {" ".join(qbs)}\n'
